@@ -23,10 +23,12 @@ Lemma q_finish_w s t k r : Qs (finish_w s t k r) = Qs s.
 Proof. destruct k, r; reflexivity. Qed.
 Lemma q_finish_close s t a k : Qs (finish_close s t a k) = Qs s.
 Proof. destruct a; [| destruct k |]; reflexivity. Qed.
+Lemma q_shutdown_tr s : Qs (shutdown_tr s) = Qs s.
+Proof. unfold shutdown_tr. destruct (stalled s); reflexivity. Qed.
 Lemma q_release_ws ws : forall s, Qs (release_ws ws s) = Qs s.
 Proof.
   induction ws as [|w ws IH]; intros s; cbn [release_ws]; [reflexivity|].
-  destruct (t_pc (tasks s w)); try reflexivity. rewrite IH. apply (q_finish_close (set_shut s)).
+  destruct (t_pc (tasks s w)); try reflexivity. rewrite IH, q_finish_close. apply q_shutdown_tr.
 Qed.
 Lemma q_enter_close s t a k : Qs (enter_close s t a k) = Qs s.
 Proof. unfold enter_close. destruct (closed s); [apply q_finish_close | reflexivity]. Qed.
@@ -197,6 +199,7 @@ Proof.
     + inversion H; subst. apply VF; [apply kw_of_quiet; apply quiet_flags | reflexivity | reflexivity].
     + inversion H; subst. apply VF; [apply kw_of_quiet; apply quiet_flags | reflexivity | reflexivity].
     + inversion H; subst. apply VF; [apply kw_of_quiet; apply quiet_flags | reflexivity | reflexivity].
+    + inversion H; subst. apply VF; [apply kw_of_quiet; unfold quiet; split; [reflexivity | split; [reflexivity | intros ?; reflexivity]] | reflexivity | reflexivity].
     + (* CFeed *)
       destruct (Nat.eqb t rtid) eqn:Et; inversion H; subst; [apply VF0|].
       apply Nat.eqb_neq in Et.
@@ -264,6 +267,7 @@ Proof.
     + eapply kw_of_pcu. eapply quiet_pcu; [|apply pcu_set_pc]. unfold quiet. split; [reflexivity | split; [reflexivity | intros ?; reflexivity]].
   - (* PW4 *)
     assert (wr s = Some t) as Ewr by (apply (inv_holder s HI); unfold pcof; rewrite Epc; reflexivity).
+    destruct (stalled s && negb (shut s)); [discriminate|].
     destruct (failing s || shut s); inversion H; subst.
     + set (s1 := set_wire s (pkt s + 1)%N (wire s)).
       assert (Inv s1) as HI1 by (eapply inv_quiet; [exact HI | unfold quiet; split; [reflexivity | split; [reflexivity | intros ?; reflexivity]]]).
@@ -290,9 +294,9 @@ Proof.
       * unfold own. rewrite sub_set_pc. unfold pcof. cbn. rewrite upd_same, Epc. reflexivity.
       * apply kw_pcs; intros u Hne; unfold pcof; cbn; rewrite upd_other by exact Hne; reflexivity.
     + apply V_same.
-      * apply (q_finish_close (set_shut s)).
-      * apply (own_of s _ t PIdle); [apply pcof_finish_close_same | rewrite sub_finish_close; reflexivity | unfold pcof; rewrite Epc; reflexivity].
-      * eapply kw_of_pcu. eapply quiet_pcu; [|apply pcu_finish_close]. apply quiet_flags.
+      * rewrite q_finish_close. apply q_shutdown_tr.
+      * apply (own_of s _ t PIdle); [apply pcof_finish_close_same | rewrite sub_finish_close, tasks_shutdown_tr; reflexivity | unfold pcof; rewrite Epc; reflexivity].
+      * eapply kw_of_pcu. eapply quiet_pcu; [|apply pcu_finish_close]. apply quiet_shutdown_tr.
   - discriminate.
   - (* PO0 *)
     inversion H; subst. apply V_same; [reflexivity | |].
@@ -335,12 +339,12 @@ Proof.
   - left. destruct (wr s); inversion H; subst; rewrite prog_set_pc; reflexivity.
   - discriminate.
   - left. inversion H; subst. rewrite prog_set_pc. reflexivity.
-  - left. destruct (failing s || shut s); inversion H; subst.
+  - left. destruct (stalled s && negb (shut s)); [discriminate|]. destruct (failing s || shut s); inversion H; subst.
     + rewrite prog_set_pc. unfold release. rewrite prog_release_ws. reflexivity.
     + rewrite prog_finish_w. unfold release. rewrite prog_release_ws. reflexivity.
   - left. inversion H; subst. apply prog_enter_close.
   - left. cbv zeta in H. inversion H; subst. rewrite prog_set_pc. cbn [tasks set_table set_tasks set_rtable drain_state]. rewrite prog_drain. apply prog_wake.
-  - left. destruct (wr s); inversion H; subst; [rewrite prog_set_pc; reflexivity | apply (prog_finish_close (set_shut s))].
+  - left. destruct (wr s); inversion H; subst; [rewrite prog_set_pc; reflexivity | rewrite prog_finish_close, tasks_shutdown_tr; reflexivity].
   - discriminate.
   - left. inversion H; subst. cbn. rewrite upd_same. reflexivity.
   - left. inversion H; subst. cbn. rewrite upd_same. reflexivity.
@@ -371,7 +375,7 @@ Proof.
   - exfalso. destruct (wr s); inversion H; subst; unfold pcof in P; cbn in P; rewrite upd_same in P; discriminate.
   - discriminate.
   - exfalso. inversion H; subst. unfold pcof in P; cbn in P; rewrite upd_same in P; discriminate.
-  - exfalso. destruct (failing s || shut s); inversion H; subst.
+  - exfalso. destruct (stalled s && negb (shut s)); [discriminate|]. destruct (failing s || shut s); inversion H; subst.
     + unfold pcof in P; cbn in P; rewrite upd_same in P; discriminate.
     + rewrite pcof_finish_w_self in P. discriminate.
   - exfalso. inversion H; subst. destruct (pcof_enter_close_same s t a k) as [E|E]; rewrite E in P; discriminate.
@@ -415,7 +419,7 @@ Proof.
   - exfalso. destruct (wr s); inversion H; subst; unfold pcof in P; cbn in P; rewrite upd_same in P; discriminate.
   - discriminate.
   - exfalso. inversion H; subst. unfold pcof in P; cbn in P; rewrite upd_same in P; discriminate.
-  - exfalso. destruct (failing s || shut s); inversion H; subst.
+  - exfalso. destruct (stalled s && negb (shut s)); [discriminate|]. destruct (failing s || shut s); inversion H; subst.
     + unfold pcof in P; cbn in P; rewrite upd_same in P; discriminate.
     + rewrite pcof_finish_w_self in P. discriminate.
   - exfalso. inversion H; subst. destruct (pcof_enter_close_same s t a k) as [E|E]; rewrite E in P; discriminate.
@@ -683,6 +687,7 @@ Proof.
     + inversion H; subst. eapply FIN; [|reflexivity]. exact S0.
     + inversion H; subst. eapply FIN; [|reflexivity]. exact S0.
     + inversion H; subst. eapply FIN; [|reflexivity]. exact S0.
+    + inversion H; subst. eapply FIN; [|reflexivity]. exact S0.
     + (* CFeed *)
       destruct (Nat.eqb t rtid) eqn:Et; inversion H; subst; [eapply FIN; [exact S0 | reflexivity]|].
       eapply FIN; [|reflexivity]. intros sid E.
@@ -722,6 +727,7 @@ Proof.
     specialize (O sid E0). unfold pcof. cbn. rewrite upd_same. cbn.
     destruct k; [apply in_or_app; left; exact O | subst f; apply in_or_app; right; left; reflexivity | apply in_or_app; left; exact O].
   - (* PW4 *)
+    destruct (stalled s && negb (shut s)); [discriminate|].
     destruct (failing s || shut s); inversion H; subst; intros sid E.
     + set (s1 := set_wire s (pkt s + 1)%N (wire s)) in *.
       assert (t_sid (tasks s t) = Some sid) as E0.
@@ -746,8 +752,8 @@ Proof.
     + assert (t_sid (tasks s t) = Some sid) as E0 by (cbn in E; rewrite upd_same in E; exact E).
       unfold pcof. cbn. rewrite upd_same. cbn. exact (O sid E0).
     + rewrite pcof_finish_close_same.
-      destruct (ks_finish_close (set_shut s) t a k t) as [[A|A] _]; [|congruence].
-      rewrite A in E. destruct (data_finish_close (set_shut s) t a k) as (_ & _ & L & _). rewrite L. exact (O sid E).
+      destruct (ks_shutdown_close s t a k t) as [[A|A] _]; [|congruence].
+      rewrite A in E. destruct (data_finish_close (shutdown_tr s) t a k) as (_ & _ & L & _). rewrite L. shtr. exact (O sid E).
   - discriminate.
   - (* PO0: the id is allocated; between the two inserts the task holds the new id, the old one (whose SYN is logged)
        is forgotten *)
